@@ -911,6 +911,27 @@ def cmd_magics(args):
             acc.mismatch("C08|loads-but-no-opcode-table|%s|%d" % (M.magicint2version[m], m), magic=m,
                          version=list(version_tuple), is_pypy=is_pypy, err=type(e).__name__ + ": " + str(e)[:100])
         acc.distinct.add(sha(["known", m]))
+    # the loader also looks at the file *name* to tell PyPy files of some releases from CPython's: whatever it concludes,
+    # a file it accepts must still get an opcode table
+    for m in sorted(M.magicint2version):
+        for suffix in (".pypy36.pyc", ".pypy37.pyc", ".pypy38.pyc", ".pypy39.pyc", ".pypy310.pyc", ".pypy3.pyc"):
+            p = os.path.join(tmpd, "n%d%s" % (m, suffix))
+            with open(p, "wb") as f:
+                f.write(M.int2magic(m) + b"\0" * 60)
+            acc.evaluations += 1
+            acc.count("c08_named_file_loads")
+            try:
+                r = load_module(p, get_code=False)
+            except Exception:
+                os.unlink(p)
+                continue
+            os.unlink(p)
+            try:
+                opc = get_opcode(r[0], r[4])
+                assert hasattr(opc, "opname") and len(opc.opname) >= 256
+            except Exception as e:
+                acc.mismatch("C08|loads-but-no-opcode-table|file-name%s|%d" % (suffix, m), magic=m, version=list(r[0]), is_pypy=r[4],
+                             err=type(e).__name__ + ": " + str(e)[:100])
     os.rmdir(tmpd)
 
     # (4) release-name table
@@ -1101,6 +1122,13 @@ def cmd_stackeffect(args):
         V = tuple(t["version"][:2])
         opc = get_opcode(V, False)
         api = make_std_api(V)
+        try:
+            api99 = make_std_api(V + (99,))
+            acc.evaluations += 1
+            if api99.opc is not api.opc:
+                acc.mismatch("C15|v%s|make_std_api(unlisted micro release)->%s" % (vs(V), api99.opc.__name__.split(".")[-1]))
+        except Exception as e:
+            acc.mismatch("C15|v%s|make_std_api(unlisted micro release)-raises:%s" % (vs(V), type(e).__name__))
         native = None
         if V == HOSTV and args.get("native"):
             import xdis.std as native
@@ -3013,6 +3041,13 @@ def state_digest():
     out["marsh._FastUnmarshaller.dispatch"] = fn_names(XM._FastUnmarshaller.dispatch)
     out["marsh._load_dispatch"] = fn_names(XM._load_dispatch)
     out["unmarshal.UNMARSHAL_DISPATCH_TABLE"] = sha(dump(UM.UNMARSHAL_DISPATCH_TABLE))
+    # process-level settings a library call must leave alone
+    out["process.recursionlimit"] = str(sys.getrecursionlimit())
+    if hasattr(sys, "get_int_max_str_digits"):
+        out["process.int_max_str_digits"] = str(sys.get_int_max_str_digits())
+    out["process.cwd"] = os.getcwd()
+    out["process.environ"] = sha(dump(dict(os.environ)))
+    out["process.sys.path"] = sha(dump(list(sys.path)))
     return out
 
 
@@ -3097,6 +3132,12 @@ def in_child(fn):
         status = 0
         try:
             os.close(r)
+            # a fresh process also means a temp directory nobody has used yet
+            import tempfile
+
+            d = tempfile.mkdtemp(prefix="child-")
+            tempfile.tempdir = d
+            os.environ["TMPDIR"] = d
             data = json.dumps(fn()).encode("utf-8")
             with os.fdopen(wfd, "wb") as f:
                 f.write(data)
